@@ -48,6 +48,10 @@ inductive DKey where
   | int (i : Int)
   | lit (id : Nat) (v : Nat)
   | idx (i : Int)
+  /-- any OTHER hashable key object — a `Key` instance (a path used as a mapping key: `dict(view.items())`, a flattened
+  tree), a tuple, a frozenset, … — as an opaque atom (object class `id` up to `==`): ONE key whatever is inside it
+  (wp-SC18c; `_dfs_iter_tree` must append it as one path element, tree.py:299). -/
+  | obj (id : Nat)
   deriving DecidableEq, Repr, Inhabited
 
 /-- The `==` / `hash` class of a key object: what a dict lookup compares. -/
@@ -64,6 +68,8 @@ inductive PKey where
   | self
   | skip
   | lit (id : Nat) (v : Ref)
+  /-- a path element that is some other hashable object (a `Key` instance, a tuple, …): ONE element, opaque (wp-SC18c) -/
+  | obj (id : Nat)
   deriving DecidableEq, Repr, Inhabited
 
 abbrev Path := List PKey
@@ -76,6 +82,7 @@ def PKey.toDKey : PKey → DKey
   | .self => .str "SELF"
   | .skip => .str "SKIP"
   | .lit id v => .lit id v
+  | .obj id => .obj id
 
 /-- The key OBJECT `d[k] = v` stores when `k` is not yet a key of `d` (an existing entry keeps its old key
 object): the path element itself, `Index` instances included. -/
@@ -591,6 +598,7 @@ def dkeyToPKey : DKey → PKey
   | .int i => .int i
   | .lit id v => .lit id v
   | .idx i => .idx i
+  | .obj id => .obj id
 
 /-- `enumerate(data)` with keys `Index(start)`, `Index(start+1)`, … -/
 def seqChildren : List Ref → Nat → List (PKey × Ref)
